@@ -17,6 +17,20 @@ CHECKS = {
          "and the real function against networkx d-separation on the canonical DAG on sampled 3-6 node ADMGs. Not counted as proved.",
          TRUST + "; trusted mathematics: augmentation/moralisation criterion (Richardson 2003; Lauritzen et al. 1990), validated every run against networkx.is_d_separator",
          TECH + " + bounded run-time contract (exhaustive <= 3 nodes) + oracle cross-check", "DESIGN.md §5 C04"),
+ "C15": ("other", "Deductive part: the canonical form of every judgement (DSeparationJudgement.create: ordered ends, sorted duplicate-free conditions) is proved for all inputs, "
+         "and 'every listed judgement is a true separation' rests on the contract of are_d_separated, used modularly (decided under C04). The enumeration logic "
+         "(d_separations / powerset / minimal / get_conditional_independencies: generators with nested loops, sorted/groupby/min over judgement objects) is outside the VC "
+         "generator's subset and is decided by the labelled bounded stand-in: every ADMG on 2-3 nodes x limits {none,0,1,2,3} and sampled 4-5 node ADMGs against brute-force "
+         "enumeration over an independent d-separation oracle (exactly one judgement per separable pair, none otherwise, true, canonical, minimum size, within the limit).",
+         TRUST + "; assumed contract: are_d_separated (verified under C04)", TECH + " (canonical form) + bounded exhaustive enumeration against an oracle", "DESIGN.md §5 C15"),
+ "C13": ("other", "Proved for all expressions, distributions and value assignments (den/ok uninterpreted, QF_UFNRA): every __mul__ / __truediv__ implementation "
+         "(Expression, Probability, Product, Sum, Fraction, QFactor, One, Zero), Fraction.flip, Fraction.simplify, Fraction._simplify_parts and Product.safe return an expression "
+         "denoting the product / quotient / same value of their arguments. Assumed contracts checked only by the bounded stand-in (sampled concrete expressions, exact rational "
+         "evaluation): Fraction._simplify_parts_helper (index loops), Sum.safe, Sum.simplify, marginalize, normalize_marginalize, conditional, chain_expand (incl. single-child factors), "
+         "fraction_expand, bayes_expand, contract, recursive_contract -- these rest on probability facts (marginalising a joint, chain rule, definition of a conditional). "
+         "One open known finding (Expression.conditional with bound variables / subscripts).",
+         TRUST + "; algebraic and fold laws instantiated per path (listed in y0vc/exprs.py LAWS); termination of Fraction.simplify's recursion not verified",
+         TECH + " (QF_UFNRA, ground-instantiated laws) + bounded run-time contracts with exact evaluation", "DESIGN.md §5 C13"),
 }
 NA = {
 }
